@@ -74,69 +74,105 @@ def describe(events):
 
 
 def check_path(r, K):
-    """Return None if the path obeys the protocol, else a description."""
-    ev = r.events
-    cbs = [e for e in ev if e[0] == "cb"]
-    boxes = {e[1]: e[2] for e in ev if e[0] == "answer_box"}
-    seq = describe(ev)
+    """Return None if the path obeys the protocol, else a description. The event log holds, in order, every callback with the
+    answer the consumer gave, every parse_header / parse_inst call with its outcome, and every track call."""
     if r.status == "loop_bound":
         return None
     if r.status != "return":
         return "path ends in %s: %s" % (r.status, r.info)
     res = r.value
-    # answers are not in the log; reconstruct what must have happened from the protocol, forwards
-    # expected sequence grammar:
-    #   initialize [parse_header [header (parse_inst [track instruction])* finalize?]]
-    i = 0
+    boxes = {e[1]: e[2] for e in r.events if e[0] == "answer_box"}
+    ev = [e for e in r.events if e[0] in ("cb", "answer", "parse_header", "parse_inst", "outcome", "track")]
+    pos = 0
+    ncb = 0
 
-    def expect(tok):
-        nonlocal i
-        if i < len(seq) and seq[i] == tok:
-            i += 1
-            return True
-        return False
-    if not expect("initialize"):
-        return "first event is not initialize: %s" % seq
-    if i == len(seq):
-        return result_is_consumer_stop_or_error(res, boxes, 0) or None
-    if not expect("parse_header"):
-        return "after initialize comes %s" % seq[i]
-    if i == len(seq):
-        # header parse failed: result must be that error
+    def take(kind, sub=None):
+        nonlocal pos
+        if pos < len(ev) and ev[pos][0] == kind and (sub is None or ev[pos][1] == sub):
+            pos += 1
+            return ev[pos - 1]
+        return None
+
+    def nxt():
+        return ("%s %s" % (ev[pos][0], ev[pos][1] if len(ev[pos]) > 1 else "")) if pos < len(ev) else "end"
+
+    def callback(kind):
+        """-> (error text | None, answer)"""
+        nonlocal ncb
+        if not take("cb", kind):
+            return "expected the %s callback, got %s" % (kind, nxt()), None
+        a = take("answer")
+        if a is None:
+            return "callback %s without an answer in the log" % kind, None
+        ncb += 1
+        return None, a[1]
+
+    def ended_by_consumer(a):
+        if pos != len(ev):
+            return "the consumer answered %s to callback #%d but the parse went on with %s" % ({"S": "stop", "E": "error"}[a], ncb - 1, nxt())
+        if not (isinstance(res, sym.Adt) and res.variant == "Err"):
+            return "the consumer answered %s but the result is %r" % ({"S": "stop", "E": "error"}[a], res)
+        s_ = res.fields[0]
+        if a == "S":
+            return None if isinstance(s_, sym.Adt) and s_.variant == "ConsumerStopRequested" else "stop answered but the result is Err(%r)" % (s_,)
+        if isinstance(s_, sym.Adt) and s_.variant == "ConsumerError":
+            b = s_.fields[0]
+            return None if isinstance(b, sym.Sym) and b.name == "consumer_err%d" % (ncb - 1) else "ConsumerError carries %r, not the error answered by callback #%d" % (b, ncb - 1)
+        return "error answered but the result is Err(%r)" % (s_,)
+    err, a = callback("initialize")
+    if err:
+        return err
+    if a != "C":
+        return ended_by_consumer(a)
+    if not take("parse_header"):
+        return "after initialize comes %s" % nxt()
+    o = take("outcome")
+    if o is None:
+        return "parse_header without an outcome"
+    if o[1] == "header-err":
+        if pos != len(ev):
+            return "parse_header failed but the parse went on with %s" % nxt()
         return None if is_err_of(res, "header_err") else "parse_header failed but result is %r" % (res,)
-    if not expect("header"):
-        return "after a successful parse_header comes %s" % seq[i]
-    ncb = 1
-    if i == len(seq):
-        return result_is_consumer_stop_or_error(res, boxes, ncb) or None
+    err, a = callback("header")
+    if err:
+        return err
+    if a != "C":
+        return ended_by_consumer(a)
     ninst = 0
     while True:
-        if not expect("parse_inst"):
-            return "expected parse_inst, got %s in %s" % (seq[i] if i < len(seq) else "end", seq)
-        if i == len(seq):
-            # parse_inst returned an error other than Complete: result is that error, no finalize
+        if not take("parse_inst"):
+            return "expected parse_inst, got %s" % nxt()
+        o = take("outcome")
+        if o is None:
+            return "parse_inst without an outcome"
+        if o[1] == "inst-err":
+            if pos != len(ev):
+                return "parse error #%d but the parse went on with %s" % (ninst, nxt())
             return None if is_err_of(res, "inst_err%d" % ninst) else "parse error #%d but result is %r" % (ninst, res)
-        if expect("finalize"):
-            if i != len(seq):
-                return "events after finalize: %s" % seq[i:]
-            ncb += 1
-            ok = isinstance(res, sym.Adt) and res.variant == "Ok"
-            bad = result_is_consumer_stop_or_error(res, boxes, ncb)
-            return None if (ok or bad is None) else bad
-        if not expect("track"):
-            return "after a parsed instruction comes %s (expected track)" % seq[i]
-        if not expect("instruction"):
-            return "after track comes %s" % (seq[i] if i < len(seq) else "end")
-        # the delivered instruction is the one just parsed, and tracked
-        cb = [e for e in ev if e[0] == "cb" and e[1] == "instruction"][ninst]
-        tr = [e for e in ev if e[0] == "track"][ninst]
-        for what, v in (("delivered", cb[2]), ("tracked", tr[1])):
-            if not (isinstance(v, sym.Sym) and v.name == "inst%d" % ninst):
-                return "%s instruction #%d is %r" % (what, ninst, v)
-        ncb += 1
+        if o[1] == "inst-complete":
+            err, a = callback("finalize")
+            if err:
+                return err
+            if pos != len(ev):
+                return "events after finalize: %s" % nxt()
+            if a != "C":
+                return ended_by_consumer(a)
+            return None if isinstance(res, sym.Adt) and res.variant == "Ok" else "the whole binary was parsed and finalize answered continue, but the result is %r" % (res,)
+        tr = take("track")
+        if tr is None:
+            return "after a parsed instruction comes %s (expected track)" % nxt()
+        if not (isinstance(tr[1], sym.Sym) and tr[1].name == "inst%d" % ninst):
+            return "tracked instruction #%d is %r" % (ninst, tr[1])
+        if pos < len(ev) and ev[pos][0] == "cb" and ev[pos][1] == "instruction":
+            cbv = ev[pos][2]
+            if not (isinstance(cbv, sym.Sym) and cbv.name == "inst%d" % ninst):
+                return "delivered instruction #%d is %r" % (ninst, cbv)
+        err, a = callback("instruction")
+        if err:
+            return err
+        if a != "C":
+            return ended_by_consumer(a)
         ninst += 1
-        if i == len(seq):
-            return result_is_consumer_stop_or_error(res, boxes, ncb) or None
 
 
 def is_err_of(res, name):
@@ -205,7 +241,12 @@ def run(ctx):
             real, why = replay_path(rp, r)
             ctx.validated += 1
             if why is not None and check_path(r, K) is None:
-                ctx.ob("replay/" + ">".join(describe(r.events))[:120], None, "model says conforming, compiled crate deviates: %s" % why)
+                # the path is conforming in the model only because parse_header / parse_inst are summarised; the binary built for
+                # it makes the real parser break the protocol: a concrete input against the real code
+                ctx.ob("replay/" + ">".join(describe(r.events))[:120], False, "compiled crate deviates from the protocol: %s" % why)
+                ctx.violation("parse/protocol/native/%s" % classify(why), "binary + consumer script built for the path %s: the real parser deviates from the protocol: %s (%s)" % (
+                    describe(r.events), why, str(real)[:300]), {"cmd": real.get("cmd"), "real": real})
+                break
     rp.close()
     ctx.extra["states"] = complete
     ctx.extra["transitions"] = eng.stats.paths
